@@ -62,7 +62,7 @@ theorem withdraw_gate {E : Env} {now : Int} {s s' : St} {owner depositor : Acct}
 theorem draw_gate {E : Env} {now : Int} {s s' : St} {owner : Acct} {ty : Nat} {p : Int} {pd : Denom}
     (h : draw E now s owner ty p pd = .ok s') :
     ∃ cp id c0 c2, E.P.colls[ty]? = some cp ∧ findCdp s owner ty = some (id, c0) ∧ s'.cdp id = some c2 ∧
-      c2.ty = ty ∧ GateOk E s cp c2 := by
+      c2.ty = ty ∧ GateOk E s cp c2 ∧ s.status cp.spot = true ∧ s.status cp.liq = true := by
   unfold draw at h
   split at h
   · cases h
@@ -71,9 +71,9 @@ theorem draw_gate {E : Env} {now : Int} {s s' : St} {owner : Acct} {ty : Nat} {p
   rename_i id c0 hf
   split at h
   · cases h
+  rename_i cp hv
   split at h
   · cases h
-  rename_i cp hcp
   split at h
   · cases h
   split at h
@@ -98,10 +98,12 @@ theorem draw_gate {E : Env} {now : Int} {s s' : St} {owner : Acct} {ty : Nat} {p
   rename_i s6 hupd
   cases h
   obtain ⟨ho, hty0, -⟩ := findCdp_spec hf
+  obtain ⟨hcp, -, hst1, hst2⟩ := validateCollateral_spec hv
+  rw [hty0] at hcp
   have S := syncInterest_spec ho hsync
   obtain ⟨old, hold, e6⟩ := updateCdpIdx_spec hupd
   subst e6
-  refine ⟨cp, id, c0, _, hcp, hf, by dsimp only; rw [upd_same], by dsimp only; rw [S.ty, hty0], ?_⟩
+  refine ⟨cp, id, c0, _, hcp, hf, by dsimp only; rw [upd_same], by dsimp only; rw [S.ty, hty0], ?_, hst1, hst2⟩
   refine ⟨r, ?_, by omega⟩
   dsimp only
   rw [← S.price]; exact hcr
@@ -185,6 +187,19 @@ theorem withdraw_feed_gate {E : Env} {now : Int} {s : St} {owner depositor : Acc
   split
   · rfl
   · rw [feed_gate_validate hcp hdown]
+
+theorem draw_feed_gate {E : Env} {now : Int} {s : St} {owner : Acct} {ty : Nat} {p : Int} {pd : Denom}
+    {cp : CollParam} (hcp : E.P.colls[ty]? = some cp)
+    (hdown : s.status cp.spot = false ∨ s.status cp.liq = false) :
+    draw E now s owner ty p pd = .err := by
+  unfold draw
+  split
+  · rfl
+  · split
+    · rfl
+    · rename_i id c0 hf
+      obtain ⟨-, hty0, -⟩ := findCdp_spec hf
+      rw [hty0, feed_gate_validate hcp hdown]
 
 /-- keeper liquidation: the synchronised CDP is below the ratio at the liquidation price, and the whole
     position is gone afterwards -/
